@@ -8,3 +8,28 @@ package cfevesting
 //@ // ---- declared effects (checked per call instruction by the effect checker; anything not listed is effect-free) ----
 //@ effects InitGenesis trace.write
 //@ effects AppModule.InitGenesis trace.write
+
+//@ // ---- C12: genesis import and export of the vesting module agree on the vesting types (unit conversion) ----
+//@ pred genTypeFits(g) = knownUnit(g.LockupPeriodUnit) && knownUnit(g.VestingPeriodUnit)
+//@   && 0 <= unitNs(g.LockupPeriodUnit) * g.LockupPeriod && unitNs(g.LockupPeriodUnit) * g.LockupPeriod <= maxInt64
+//@   && 0 <= unitNs(g.VestingPeriodUnit) * g.VestingPeriod && unitNs(g.VestingPeriodUnit) * g.VestingPeriod <= maxInt64
+//@ func InitGenesis(ctx, k, genState, ak, bk, sk)
+//@   // what GenesisState.Validate established (names unique, known units, non-negative periods); an exported genesis also fits int64
+//@   requires forall i: int, j: int :: {genState.VestingTypes[i].Name, genState.VestingTypes[j].Name} 0 <= i && i < j && j < len(genState.VestingTypes) ==> genState.VestingTypes[i].Name != genState.VestingTypes[j].Name
+//@   requires forall i: int :: {genState.VestingTypes[i].Name} 0 <= i && i < len(genState.VestingTypes) ==> genTypeFits(genState.VestingTypes[i])
+//@   requires forall i: int :: {genState.AccountVestingPools[i]} 0 <= i && i < len(genState.AccountVestingPools) ==> genState.AccountVestingPools[i] != nil
+//@     && (forall j: int :: {genState.AccountVestingPools[i].VestingPools[j]} 0 <= j && j < len(genState.AccountVestingPools[i].VestingPools) ==> genState.AccountVestingPools[i].VestingPools[j] != nil)
+//@   modifies $kvHas, $kvVal, $pFound, $pGenesis, $pIL, $pLen, $pLockEnd, $pLockStart, $pName, $pS, $pType, $pW
+//@   modifies $trFound, $trGenesis, $trFromGenesisPool, $trFromGenesisAccount, $vtFound, $vtFree, $vtLockup, $vtVesting
+//@   ensures [vesting-types] forall i: int :: {genState.VestingTypes[i].Name} 0 <= i && i < len(genState.VestingTypes) ==>
+//@     $vtFound[genState.VestingTypes[i].Name]
+//@     && $vtLockup[genState.VestingTypes[i].Name] == unitNs(genState.VestingTypes[i].LockupPeriodUnit) * genState.VestingTypes[i].LockupPeriod
+//@     && $vtVesting[genState.VestingTypes[i].Name] == unitNs(genState.VestingTypes[i].VestingPeriodUnit) * genState.VestingTypes[i].VestingPeriod
+//@     && $vtFree[genState.VestingTypes[i].Name] == genState.VestingTypes[i].Free
+//@   prop C12
+//@ loop InitGenesis#2
+//@   invariant 0 <= \i && \i <= len(genState.VestingTypes) && len(vestingTypes.VestingTypes) == \i && off(vestingTypes.VestingTypes) == 0
+//@   invariant forall j: int :: {vestingTypes.VestingTypes[j]} 0 <= j && j < \i ==> vestingTypes.VestingTypes[j] != nil
+//@     && vestingTypes.VestingTypes[j].Name == genState.VestingTypes[j].Name && vestingTypes.VestingTypes[j].Free == genState.VestingTypes[j].Free
+//@     && vestingTypes.VestingTypes[j].LockupPeriod == unitNs(genState.VestingTypes[j].LockupPeriodUnit) * genState.VestingTypes[j].LockupPeriod
+//@     && vestingTypes.VestingTypes[j].VestingPeriod == unitNs(genState.VestingTypes[j].VestingPeriodUnit) * genState.VestingTypes[j].VestingPeriod
